@@ -22,11 +22,11 @@ Definition fquantile (q : float) (points : list float) : float := gquantile floa
 (* AddFunc, by aggregation code: 0 sum 1 max 2 min 3 count 4 avg 5 group 6 stddev 7 stdvar 8 quantile *)
 Definition facc_add (code : N) (s : fstate) (v : float) : fstate :=
   match code with
-  | 0%N => mkFS (f1 s + v) 0 0 0 0 true []
+  | 0%N => mkFS (if fhas s then f1 s + v else v) 0 0 0 0 true []                  (* the first value as it is: 0 + (-0) = 0 *)
   | 1%N => mkFS (if negb (fhas s) || PrimFloat.ltb (f1 s) v || PrimFloat.is_nan (f1 s) then v else f1 s) 0 0 0 0 true []
   | 2%N => mkFS (if negb (fhas s) || PrimFloat.ltb v (f1 s) || PrimFloat.is_nan (f1 s) then v else f1 s) 0 0 0 0 true []
   | 3%N => mkFS (f1 s + 1) 0 0 0 0 true []
-  | 4%N => let '(count, sum) := gacc_avg_step float fops (f1 s, f2 s) v in mkFS count sum 0 0 0 true []
+  | 4%N => let '(count, sum) := gacc_avg_step float fops (f1 s, f2 s) v in mkFS count (if fhas s then sum else v) 0 0 0 true []
   | 5%N => mkFS 0 0 0 0 0 true []
   | 8%N => mkFS (f1 s) 0 0 0 0 true (fpts s ++ [v])                (* quantile: argument, points *)
   | _ =>                                                          (* count, mean, cMean, aux, cAux *)
